@@ -1,0 +1,49 @@
+//! Verification hooks.
+//!
+//! This module only exists when the `verif-hooks` cargo feature is enabled.
+//! It lets an external test harness observe (and pause at) the places where
+//! Kira's threads touch shared state. When no hook is installed every
+//! function in this module is a no-op.
+
+use std::sync::atomic::{AtomicUsize, Ordering};
+
+/// Something a harness may want to know about.
+#[derive(Debug, Clone, Copy, PartialEq, Eq)]
+pub enum Event {
+	/// The calling thread is about to perform the cross-thread
+	/// operation named by the string.
+	Sync(&'static str),
+	/// The calling thread has just spawned a thread that will
+	/// emit [`Event::Sync`] events of its own.
+	ThreadSpawned,
+	/// The calling thread (spawned by Kira) is about to leave
+	/// its main loop and exit.
+	ThreadExit,
+}
+
+/// A hook function.
+pub type Hook = fn(Event);
+
+static HOOK: AtomicUsize = AtomicUsize::new(0);
+
+/// Installs (or removes) the process-wide hook.
+pub fn set_hook(hook: Option<Hook>) {
+	HOOK.store(hook.map(|hook| hook as usize).unwrap_or(0), Ordering::SeqCst);
+}
+
+/// Sends an event to the hook, if there is one.
+#[inline]
+pub fn emit(event: Event) {
+	let hook = HOOK.load(Ordering::SeqCst);
+	if hook != 0 {
+		// SAFETY: the only non-zero values ever stored are `Hook` fn pointers
+		let hook: Hook = unsafe { std::mem::transmute::<usize, Hook>(hook) };
+		hook(event);
+	}
+}
+
+/// Shorthand for `emit(Event::Sync(site))`.
+#[inline]
+pub fn sync_point(site: &'static str) {
+	emit(Event::Sync(site));
+}
